@@ -255,6 +255,11 @@ def gen_history(ctx, maxlen, allow_form_switch):
             for nm in seq:
                 ops.append("T%d,%d" % (names[nm], d))
             continue
+        if last_failed is False and r.random() < 0.05:
+            # the DecimalFormat cache of the transformer's format-number functor: declarations that differ in one symbol only
+            for sh in r.sample(P.DF_SHEETS, r.choice([2, 3, 3, 4])):
+                ops.append("T%d,%d" % (sh, r.choice(quiet_src)))
+            continue
         if x < 0.58 or last_failed is not False:
             if last_failed is not False and r.random() < 0.8:
                 # a failure is directly followed by successes that could observe a leak
